@@ -23,6 +23,10 @@ def owner(rej):
             return "C12", "unmatched:FeDone:batch"
         if k in ("ok", "err", "sub", "fail"):
             return "C03", "unmatched:FeDone:" + k
+        if k == "restart" and e.get("res", {}).get("cause") == "notPending":
+            # the client abandoned the connection over a response it did not find pending where the spec has the call
+            # completed (or pending with another outcome): a routing matter as much as a shutdown matter
+            return ("C03", "C09"), "unmatched:FeDone:restart-notPending"
         return "C09", "unmatched:FeDone:" + k
     if ev == "WireOut":
         k = e.get("k")
@@ -72,7 +76,7 @@ def run_client(pid, tier, rep, design_cfgs, asis, groups, nscen):
             detail = {"group": g, "scenario": r["scenario"], "line_in_scenario": r["line_in_scenario"],
                       "first_unexplained": r.get("event") or r.get("invariant"),
                       "trace": [json.loads(x) for x in scs[r["scenario"]]][:400]}
-            if own == pid:
+            if own == pid or (isinstance(own, tuple) and pid in own):
                 rep.mismatch("%s:%s" % (g, key), detail)
             else:
                 foreign += 1
